@@ -274,11 +274,45 @@ fn lj2_case(g: &mut Sm) -> String {
     format!("mode=lj2 s1={} e1={} c1={} s2={} e2={} c2={} r={} th={}{}", fmt_f(s1), fmt_f(e1), fmt_fo(c1), fmt_f(s2), fmt_f(e2), fmt_fo(c2), fmt_f(r), fmt_f(g.range(0., 2. * PI)), common)
 }
 
+/// C09 / C10: three variants of one state whose scores are equal, or a few ulps apart, or clearly different;
+/// Lennard-Jones states include compressed cells (negative scores)
+fn order_case(g: &mut Sm) -> String {
+    let group = *g.pick(&GROUPS);
+    let lj = g.chance(0.5);
+    let ulps = |g: &mut Sm| -> String {
+        let mut pickd = |g: &mut Sm| -> i64 { *g.pick(&[0i64, 0, 1, -1, 2, 3, -2, 5, 40, -40, 1_000_000, -1_000_000, 1 << 40]) };
+        format!("{}:{}:{}", pickd(g), pickd(g), pickd(g))
+    };
+    let (dlen, dx) = match g.below(4) {
+        0 => ("0:0:0".to_string(), ulps(g)),          // same score (p1: x does not matter), different identity
+        1 => (ulps(g), "0:0:0".to_string()),
+        _ => (ulps(g), ulps(g)),
+    };
+    if lj {
+        let shape = lj_shape(g);
+        let mono = group == "p1" || group == "p2";
+        // from compressed (net repulsive: negative score) to relaxed cells
+        let len = copies(group) * *g.pick(&[0.9, 1.2, 1.6, 2.0, 2.6, 3.5, 5.0]) * g.range(0.9, 1.1);
+        let angle = if mono { g.range(PI / 3., PI / 2.) } else { PI / 2. };
+        format!("mode=order kind=lj group={} shape={} len={} ratio={} angle={} x={} y={} phi={} dlen={} dx={}",
+                group, shape, fmt_f(len), fmt_f(g.range(0.5, 1.)), fmt_f(angle), fmt_f(g.range(-0.4, 0.4)), fmt_f(g.range(-0.4, 0.4)), fmt_f(g.range(0., 2. * PI)), dlen, dx)
+    } else {
+        let (shape, radius) = hard_shape(g);
+        let mono = group == "p1" || group == "p2";
+        let angle = if mono { g.range(PI / 3., PI / 2.) } else { PI / 2. };
+        // mostly roomy (defined score), sometimes overlapping (no score: unordered)
+        let len = 4. * radius * copies(group) / angle.sin() * *g.pick(&[1.1, 1.3, 2., 1.0, 0.3]);
+        format!("mode=order kind=hard group={} shape={} len={} ratio={} angle={} x={} y={} phi={} dlen={} dx={}",
+                group, shape, fmt_f(len), fmt_f(g.range(0.6, 1.)), fmt_f(angle), fmt_f(g.range(-0.4, 0.4)), fmt_f(g.range(-0.4, 0.4)), fmt_f(g.range(0., 2. * PI)), dlen, dx)
+    }
+}
+
 pub fn gen(focus: &str, seed: u64, count: u64) -> Vec<String> {
     let mut g = Sm::new(seed.wrapping_mul(2_000_003) ^ hash2(77, focus.bytes().map(|b| b as u64).sum()));
     let mut out = vec![];
     for i in 0..count {
         let body = match focus {
+            "ORD" => order_case(&mut g),
             "C12" => pair_case(&mut g),
             "C01" if g.chance(0.5) => c01_targeted(&mut g),
             "C01" if g.chance(0.5) => c01_aligned(&mut g),
@@ -300,11 +334,20 @@ pub fn gen(focus: &str, seed: u64, count: u64) -> Vec<String> {
                 // chains of hot stages from the initial state of every group x shape x potential
                 let group = *g.pick(&GROUPS);
                 let lj = g.chance(0.5);
-                let shape = if lj { lj_shape(&mut g) } else { hard_shape(&mut g).0 };
+                let (shape, radius) = if lj { (lj_shape(&mut g), 1.5) } else { hard_shape(&mut g) };
+                // ... or from a valid state loaded from a file: roomy cell, side ratio possibly above one
+                let start = if g.chance(0.3) {
+                    let mono = group == "p1" || group == "p2";
+                    let ratio = *g.pick(&[1.5, 2., 3., 1.0000001, 0.7, 1.25]);
+                    let angle = if mono { g.range(PI / 6., PI / 2.) } else { PI / 2. };
+                    let len = 4. * radius * copies(group) / angle.sin() * g.range(1., 1.5);
+                    format!(" len={} ratio={} angle={} x={} y={} phi={}", fmt_f(len), fmt_f(ratio), fmt_f(angle),
+                            fmt_f(g.range(-0.5, 0.5)), fmt_f(g.range(-0.5, 0.5)), fmt_f(g.range(0., 2. * PI)))
+                } else { String::new() };
                 format!(
-                    "kind={} group={} shape={} opt={}:{}:{}:{} k=1 zero=0 idx=0",
+                    "kind={} group={} shape={} opt={}:{}:{}:{} k=1 zero=0 idx=0{}",
                     if lj { "lj" } else { "hard" }, group, shape,
-                    *g.pick(&[100u64, 400, 1000]), g.below(1000), fmt_f(*g.pick(&[0., 0.1, 0.5, 2.])), 1 + g.below(5)
+                    *g.pick(&[100u64, 400, 1000]), g.below(1000), fmt_f(*g.pick(&[0., 0.1, 0.5, 2.])), 1 + g.below(5), start
                 )
             }
             "C04" | "C08" | "C01" | "C10" if g.chance(0.12) => {
